@@ -1,7 +1,7 @@
 (* C10 — Feedback blocks keep their repeated layers weight-tied.
    The statements hold for every block layer list, loop count, accumulation, optimizer (the
    proof uses nothing about the optimizer step), gradients and history of updates. *)
-From NV Require Import Prelude Num NumF32 Random Tensor Activation Objective Optimizer Layers Network.
+From NV Require Import Prelude Num NumF32 Random Tensor Activation Objective Optimizer Layers Network Learn.
 From NV.Theory Require Import Monad C10.
 
 (* All unrolled repetitions hold identical parameters when the block is created, and the
@@ -56,3 +56,14 @@ Theorem C10_network_blocks_tied_forever :
     blocks (fun b => wfb b /\ Tied b) (n_layers n').
 Proof. exact net_tied_forever. Qed.
 Print Assumptions C10_network_blocks_tied_forever.
+
+(* learn itself: for every data set, batch size, epoch budget, optimizer, with or without validation
+   data, run to the end or stopped early - if learn returns, every feedback block of the returned
+   network is well-formed and tied (blocks made by feedback_create satisfy the premise: C10_create_tied) *)
+Theorem C10_learn_keeps_blocks_tied :
+  forall (N : Num) p (n n' : network N) xs ts val batch epochs h,
+    blocks (fun b => wfb b /\ Tied b) (n_layers n) ->
+    learn p n xs ts val batch epochs = Ok (n', h) ->
+    blocks (fun b => wfb b /\ Tied b) (n_layers n').
+Proof. exact learn_keeps_blocks_tied. Qed.
+Print Assumptions C10_learn_keeps_blocks_tied.
